@@ -147,6 +147,75 @@ theorem removeChar_rangeText (d1 : Bool) (c1 : Nat) (d2 : Bool) (r1 : Nat) (d3 :
   rw [removeChar_append, removeChar_coordText]
   simp [removeChar]
 
+
+/-! ### `rsplit('!', 1)` / `rpartition('!')` -/
+
+theorem rsplitLast_none (sep : Char) : ∀ (s : Text), (∀ c ∈ s, c ≠ sep) → rsplitLast sep s = none
+  | [], _ => rfl
+  | c :: s, h => by
+    simp only [rsplitLast, rsplitLast_none sep s (fun d hd => h d (by simp [hd])), h c (by simp), if_false]
+
+/-- splitting at the last separator: whatever the text before it contains -/
+theorem rsplitLast_append (sep : Char) : ∀ (a b : Text), (∀ c ∈ b, c ≠ sep) →
+    rsplitLast sep (a ++ sep :: b) = some (a, b)
+  | [], b, h => by
+    simp only [List.nil_append, rsplitLast, rsplitLast_none sep b h, if_true]
+  | c :: a, b, h => by
+    simp only [List.cons_append, rsplitLast, rsplitLast_append sep a b h]
+
+theorem rsplitLast_none_mem (sep : Char) : ∀ (t : Text), rsplitLast sep t = none → ∀ d ∈ t, d ≠ sep
+  | [], _, d, hd => by cases hd
+  | x :: t, ht, d, hd => by
+    simp only [rsplitLast] at ht
+    cases hr2 : rsplitLast sep t with
+    | some p => simp [hr2] at ht
+    | none =>
+      simp only [hr2] at ht
+      by_cases hx : x = sep
+      · simp [hx] at ht
+      · rcases List.mem_cons.mp hd with rfl | hd
+        · exact hx
+        · exact rsplitLast_none_mem sep t hr2 d hd
+
+theorem rsplitLast_some_mem (sep : Char) : ∀ (s a b : Text), rsplitLast sep s = some (a, b) →
+    s = a ++ sep :: b ∧ ∀ c ∈ b, c ≠ sep
+  | [], a, b, h => by simp [rsplitLast] at h
+  | c :: s, a, b, h => by
+    simp only [rsplitLast] at h
+    cases hr : rsplitLast sep s with
+    | some p =>
+      obtain ⟨a', b'⟩ := p
+      simp only [hr, Option.some.injEq, Prod.mk.injEq] at h
+      obtain ⟨rfl, rfl⟩ := h
+      obtain ⟨h1, h2⟩ := rsplitLast_some_mem sep s a' b' hr
+      exact ⟨by rw [h1]; rfl, h2⟩
+    | none =>
+      simp only [hr] at h
+      by_cases hc : c = sep
+      · simp only [hc, if_true, Option.some.injEq, Prod.mk.injEq] at h
+        obtain ⟨rfl, rfl⟩ := h
+        exact ⟨by rw [hc]; rfl, rsplitLast_none_mem sep s hr⟩
+      · simp [hc] at h
+
+theorem removeChar_ne_mem (c : Char) (s : Text) (x : Char) (h : ∀ d ∈ s, d ≠ x) : ∀ d ∈ removeChar c s, d ≠ x := by
+  intro d hd
+  unfold removeChar at hd
+  exact h d (List.mem_filter.mp hd).1
+
+theorem removeChar_idem (c : Char) (s : Text) : removeChar c (removeChar c s) = removeChar c s := by
+  unfold removeChar; simp [List.filter_filter]
+
+/-- a sheet-qualified text: the `$` of the coordinates go, the sheet part stays as it is -/
+theorem stripCoordDollar_qualified (S coords : Text) (h : ∀ c ∈ coords, c ≠ '!') :
+    stripCoordDollar (S ++ '!' :: coords) = S ++ '!' :: removeChar '$' coords := by
+  unfold stripCoordDollar
+  rw [rsplitLast_append '!' S coords h]
+
+theorem stripCoordDollar_unqualified (coords : Text) (h : ∀ c ∈ coords, c ≠ '!') :
+    stripCoordDollar coords = removeChar '$' coords := by
+  unfold stripCoordDollar
+  rw [rsplitLast_none '!' coords h]
+
 /-! ### the lexer of `ABSOLUTE_RE` on a spelt coordinate -/
 
 theorem isLetter_of_isUpper (c : Char) (h : isUpper c = true) : isLetter c = true := by
